@@ -143,3 +143,60 @@ func FullRangeTests(p *core.Program, r *core.Report, rule string) {
 	})
 	r.Check(ok, rule, fd.Key()+": a named port missing from the operand is excused only when the operand's ports equal the full range", p.Pos(fd.Decl.Pos()), "", why)
 }
+
+// PortSetEncapsulation is C11-g: the components of a PortSet (Ports, NamedPorts, ExcludedNamedPorts) are read only by
+// PortSet's own methods; everything else goes through its API (IsEmpty, ContainedIn, Equal, ...), which accounts for
+// numbered and named ports together. One reviewed reader outside the type is listed.
+var portSetOutsideReaders = map[string]string{
+	"netpol/internal/common.(*ConnectionSet).ProtocolsAndPortsMap | Ports": "renders the numeric intervals of a connection between two real peers; named ports are resolved against the destination pod before such a set is built (C05-b)",
+}
+
+func PortSetEncapsulation(p *core.Program, r *core.Report, rule string) {
+	nt := p.LookupType(core.PkgCommon, "PortSet")
+	if nt == nil {
+		r.Lost(rule, "type common.PortSet")
+		return
+	}
+	st := nt.Underlying().(*types.Struct)
+	fields := map[*types.Var]bool{}
+	for i := 0; i < st.NumFields(); i++ {
+		fields[st.Field(i)] = true
+	}
+	n := 0
+	for _, fd := range p.Funcs {
+		sig := fd.Obj.Type().(*types.Signature)
+		if sig.Recv() != nil && core.TypeIs(sig.Recv().Type(), core.PkgCommon, "PortSet") {
+			continue
+		}
+		if fd.Obj.Name() == "MakePortSet" && fd.Pkg.PkgPath == core.PkgCommon {
+			continue
+		}
+		info := fd.Pkg.TypesInfo
+		seen := map[string]bool{}
+		ast.Inspect(fd.Decl.Body, func(nd ast.Node) bool {
+			se, ok := nd.(*ast.SelectorExpr)
+			if !ok {
+				return true
+			}
+			f := core.FieldOf(info, se)
+			if f == nil || !fields[f] {
+				return true
+			}
+			key := fd.Key() + " | " + f.Name()
+			if seen[key] {
+				return true
+			}
+			seen[key] = true
+			n++
+			construct := fmt.Sprintf("%s: reads PortSet.%s directly", fd.Key(), f.Name())
+			if why, ok := portSetOutsideReaders[key]; ok {
+				r.Add(rule, construct, p.Pos(se.Pos()), core.Excepted, why)
+				return true
+			}
+			r.Bad(rule, construct, p.Pos(se.Pos()), "a component of a port set is consulted outside PortSet's own methods: a test on "+f.Name()+" alone (is it empty? does it contain? is it full?) forgets the other components - numbered and named ports together are the set")
+			return true
+		})
+	}
+	r.RuleCounts[rule] = n
+	r.Floor(rule, 1)
+}
